@@ -297,7 +297,7 @@ pub fn run_malformed(args: &[String]) {
         walk(&v, &mut Vec::new(), &mut leaves, &mut arrays);
         let budget = 40 * leaves.len() as u64 + 2000;
         let t0 = std::time::Instant::now();
-        let (verdict, used) = verify_subject(&s.layout, &p, s.sb, Some(if mode == "c17" { budget } else { 50_000_000 }));
+        let (verdict, used) = verify_subject(&s.layout, &p, s.sb, Some(if mode == "c17" { budget } else { 3_000_000 }));
         let ms = t0.elapsed().as_millis() as u64;
         let alone = if mode == "c18" { pi_alone(&s.layout, &p) } else { Vec::new() };
         (json!({"tag": verdict.tag(), "detail": verdict.detail(), "used": used, "budget": budget, "ms": ms, "size": leaves.len()}), alone)
